@@ -9,6 +9,7 @@ import (
 	"math/rand"
 	"net/http"
 	"os"
+	"strings"
 	"sync"
 	"testing"
 	"time"
@@ -156,6 +157,117 @@ func TestC18http(t *testing.T) {
 		}
 		col.Case(evd.FP("http", n, callers, matching), callers > 1)
 	}
+	// stacked injections: two or three descriptors for the same operation and
+	// parameters, with finite counts or none (unlimited), injected before and
+	// between the calls that use them up. Every acknowledged injection counts:
+	// of M sequential matching calls exactly min(M, sum of the counts) fail - all
+	// of them once an unlimited one was acknowledged - and the listing shows the
+	// unlimited one for as long as the process lives.
+	var stacked, unlimitedNextToLimited int64
+	for tr := 0; tr < cfg.N(24, 600); tr++ {
+		if !cfg.Mine(tr) {
+			continue
+		}
+		topic := fmt.Sprintf("projects/p/topics/stack-%d-%d", cfg.Shard, tr)
+		must2(srv.api.Pub.CreateTopic(ctx, &pubsubpb.Topic{Name: topic}))
+		inject := func(count int64) {
+			m := map[string]any{"operation": "GetTopic", "parameters": map[string]string{"topic": topic}, "error": "grpc.Unavailable"}
+			if count > 0 {
+				m["count"] = count
+			}
+			body, _ := json.Marshal(m)
+			resp, err := http.Post(base+"/faults/inject", "application/json", bytes.NewReader(body))
+			if err != nil || resp.StatusCode != http.StatusCreated {
+				t.Fatalf("inject: %v %v", err, resp)
+			}
+			resp.Body.Close()
+		}
+		call := func() codes.Code {
+			_, err := srv.api.Pub.GetTopic(ctx, &pubsubpb.GetTopicRequest{Topic: topic})
+			return status.Code(err)
+		}
+		nInj := 2 + r.Intn(2)
+		var counts []int64
+		var budget int64
+		unlimited, sawLimitedFirst := false, false
+		failed, calls := 0, 0
+		var wrong []string
+		for i := 0; i < nInj; i++ {
+			c := []int64{0, 1, 2, 5}[r.Intn(4)]
+			if c == 0 && !unlimited && budget > 0 {
+				sawLimitedFirst = true
+			}
+			inject(c)
+			counts = append(counts, c)
+			if c == 0 {
+				unlimited = true
+			}
+			budget += c
+			// some calls between the injections
+			for k := r.Intn(4); k > 0; k-- {
+				calls++
+				got := call()
+				wantFail := unlimited || budget > 0
+				if !unlimited && budget > 0 {
+					budget--
+				}
+				if (got == codes.Unavailable) != wantFail || (got != codes.Unavailable && got != codes.OK) {
+					wrong = append(wrong, fmt.Sprintf("call %d after injections %v answered %v", calls, counts, got))
+				}
+				if got == codes.Unavailable {
+					failed++
+				}
+			}
+		}
+		for k := int(budget) + 3; k > 0; k-- {
+			calls++
+			got := call()
+			wantFail := unlimited || budget > 0
+			if !unlimited && budget > 0 {
+				budget--
+			}
+			if (got == codes.Unavailable) != wantFail || (got != codes.Unavailable && got != codes.OK) {
+				wrong = append(wrong, fmt.Sprintf("call %d after injections %v answered %v", calls, counts, got))
+			}
+		}
+		if len(wrong) > 0 {
+			col.Violation("http:stacked-injections-wrong-count", fmt.Sprintf("injections with counts %v (0 = none given, unlimited) for GetTopic(%s): %s", counts, topic, strings.Join(wrong, "; ")), map[string]any{"counts": counts})
+		}
+		if unlimited {
+			// the unlimited descriptor must still be listed
+			resp, err := http.Get(base + "/faults")
+			found := false
+			if err == nil {
+				var l []struct {
+					Operation  string             `json:"operation"`
+					Count      int64              `json:"count"`
+					Parameters *map[string]string `json:"parameters"`
+				}
+				b, _ := io.ReadAll(resp.Body)
+				resp.Body.Close()
+				_ = json.Unmarshal(b, &l)
+				for _, d := range l {
+					if d.Operation == "GetTopic" && d.Parameters != nil && (*d.Parameters)["topic"] == topic && d.Count > 1<<61 {
+						found = true
+					}
+				}
+			}
+			if !found {
+				col.Violation("http:unlimited-injection-not-listed", fmt.Sprintf("injections with counts %v for GetTopic(%s): after %d calls GET /faults does not list the unlimited one (err %v)", counts, topic, calls, err), nil)
+			}
+		}
+		stacked++
+		if sawLimitedFirst {
+			unlimitedNextToLimited++
+		}
+		if !srv.alive() {
+			t.Fatalf("server died: %s", srv.panicLine())
+		}
+		col.Case(evd.FP("http-stacked", counts, calls), true)
+	}
+	col.Add("ev_http_stacked_injection_trials", stacked)
+	col.Add("ev_http_unlimited_injected_while_a_limited_twin_was_live", unlimitedNextToLimited)
+	col.Add("relevant_events", stacked)
 	col.Add("ev_http_trials_with_more_matching_callers_than_count", contended)
 	col.Add("relevant_events", contended)
 }
